@@ -6475,7 +6475,7 @@ void TMCG_OpenPGP_Keyring::Reduce
 			keys_by_keyid.erase("0x"+kid_str);
 		}	
 		delete key;
-		keys.erase(fpr_str);
+		keys.erase(rmv[i]); // fpr_str has been reused for the subkeys
 	}
 }
 
